@@ -226,7 +226,8 @@ def check_history(case, ctx):
                 x, o3.get_UoRT(x=x, T=case['T']), obj.get_UoRT(x=x, T=case['T']),
                 o3.intervals, o3.slopes, obj.intervals, obj.slopes))
             return
-    ctx.nontrivial(n_above >= 1 and n_pop >= 1)
+    kinds = {('ins' if o['op'].startswith('ins') else 'reload' if o['op'].startswith('reload') else o['op']) for o in case['ops']}
+    ctx.nontrivial(len(kinds - {'pop0'}) >= 2)
 
 
 CLAUSES = [
@@ -235,8 +236,8 @@ CLAUSES = [
            'operations insert(below/between/equal/above/free), pop(i>=1), pop(0), to_dict/from_dict and JSON '
            'reload; after every step: ascending, pairs = model multiset, value at 1-4 coverages (on / '
            'between / beyond breakpoints) at two temperatures = exact integral of the listed slopes, '
-           'continuity at each breakpoint, zero S/Cv/Cp; objects serialised mid-history are re-checked at the end. Non-trivial = history with an insert at/above the '
-           'last breakpoint and a pop'),
+           'continuity at each breakpoint, zero S/Cv/Cp; objects serialised mid-history are re-checked at the end. Non-trivial = history with at least two '
+           'different kinds of operation among insert, pop and reload'),
 ]
 ASSUMPTIONS = ['R(kcal/mol/K) from pmutt.constants (judged by C12)',
                'order among exactly equal breakpoints is left to the library; the function is judged '
